@@ -127,8 +127,18 @@ Record rfixes := mk_rfixes { rx_refill : bool; rx_scanlen : bool }.
 Definition no_rfixes : rfixes := mk_rfixes false false.
 Definition all_rfixes : rfixes := mk_rfixes true true.
 
+(* only_dot_entries has its OWN test of the record name (the per-record filter of do_readdir is [is_dot]):
+   `name.starts_with(".\0") || name.starts_with("..\0")` on the NUL padded name, i.e. the name is exactly
+   "." or ".."; kept as a separate predicate so that a disagreement between the two sites is expressible *)
+Definition is_dot_batch (e : hent) : bool :=
+  match h_name e with
+  | [a] => a =? 46
+  | [a; b] => (a =? 46) && (b =? 46)
+  | _ => false
+  end.
+
 Definition only_dots (b : list hent) : bool :=
-  match b with [] => false | _ :: _ => forallb is_dot b end.
+  match b with [] => false | _ :: _ => forallb is_dot_batch b end.
 
 (* `while Self::only_dot_entries(&buf) { getdents64 again }`; [rest]: the directory after the fd position *)
 Fixpoint refill (fuel : nat) (rest : list hent) (size : N) (b : list hent) (pos : nat)
